@@ -838,6 +838,8 @@ class Frame:
             d = self.ev.dims_of(strip_all(obj).get("t")) if obj is not None else None
             if d:
                 return num({"rows": d[0], "cols": d[1], "size": d[0] * d[1]}[short])
+        if fn.startswith("Eigen::"):
+            fn = short       # Eigen expression-template methods: the member name is the operation
         return ("call", fn, (self.fz(o),) + tuple(self.fz(a) for a in args))
 
     def call(self, n):
